@@ -291,7 +291,7 @@ Definition wf_ecs (e : ecs) : Prop :=
    address disclosed with at least the 96 prefix bits *)
 Definition ecs_family (e : ecs) : family := if is_v4 (e_addr e) && (96 <=? ecs_plen e) then V4 else V6.
 
-Definition map_of (mo : option bytes) : mapid := match mo with Some b => two_bytes b | None => (0, 0) end.
+Definition map_of (mo : option bytes) : N * N := match mo with Some b => two_bytes b | None => (0, 0) end.
 
 Section Scope.
   Variable nets : mapid -> list subnet.         (* declared subnets per map *)
@@ -323,18 +323,22 @@ Section Scope.
     intros S e Hwf Hf c.
     assert (Hplen : eff_plen c = ecs_plen e /\ ecs_plen e <= 128 /\ cfam c = ecs_family e /\
                     (search_addr premask c = e_addr e \/ search_addr premask c = clean_mask (e_addr e) (ecs_plen e))).
-    { unfold c, ecs_client, eff_plen, cfam, ecs_family, ecs_plen, search_addr, c_size, c_isv4, c_masked, c_addr; simpl.
+    { unfold c, ecs_client, cfam, eff_plen, ecs_family, ecs_plen, search_addr, c_size, c_isv4, c_masked, c_addr.
       destruct Hwf as [[F _]|[[F [Hs Hv]]|[F Hs]]].
       - destruct Hf as [X|X]; rewrite X in F; discriminate.
-      - rewrite F. simpl. rewrite Hv. simpl.
+      - rewrite F. change (1 =? 2) with false. change (1 =? 1) with true. cbv iota.
+        cbn [c_ip c_bits c_ones]. rewrite Hv. change (32 =? 32) with true. cbn [andb].
         assert (E : (32 <? e_src e) = false) by (apply N.ltb_ge; lia). rewrite E.
         assert (E2 : (96 <=? e_src e + 96) = true) by (apply N.leb_le; lia). rewrite E2.
         assert (E3 : (96 <=? 96 + e_src e) = true) by (apply N.leb_le; lia). rewrite E3.
-        repeat split; try lia. destruct premask; [right|left]; reflexivity.
-      - rewrite F. simpl.
+        split; [lia|]. split; [lia|]. split; [reflexivity|].
+        destruct premask; [right|left]; reflexivity.
+      - rewrite F. change (2 =? 2) with true. change (2 =? 1) with false. cbv iota.
+        cbn [c_ip c_bits c_ones]. change (128 =? 32) with false.
         assert (E : (128 <? e_src e) = false) by (apply N.ltb_ge; lia). rewrite E.
         rewrite Bool.andb_false_r. rewrite N.add_0_r.
-        repeat split; try lia. destruct premask; [right|left]; reflexivity. }
+        split; [reflexivity|]. split; [lia|]. split; [reflexivity|].
+        destruct premask; [right|left]; reflexivity. }
     destruct Hplen as [P1 [P2 [P3 P4]]]. rewrite P1, P3.
     destruct P4 as [->| ->]; [reflexivity|]. apply lpm_clean_mask. exact P2.
   Qed.
@@ -361,7 +365,10 @@ Section Scope.
 
   Lemma wf_plen : forall e, wf_ecs e -> ecs_plen e <= 128.
   Proof.
-    intros e [[F S]|[[F [S _]]|[F S]]]; unfold ecs_plen; rewrite F; simpl; lia.
+    intros e [[F S]|[[F [S _]]|[F S]]]; unfold ecs_plen; rewrite F.
+    - change (0 =? 1) with false. cbv iota. lia.
+    - change (1 =? 1) with true. cbv iota. lia.
+    - change (2 =? 1) with false. cbv iota. lia.
   Qed.
 
   Lemma ecs_location_spec : forall e mo, fm8 = Ok mo -> wf_ecs e ->
@@ -378,13 +385,14 @@ Section Scope.
     - assert (Hf : e_fam e = 1 \/ e_fam e = 2).
       { apply Bool.negb_false_iff in NF. apply Bool.orb_true_iff in NF.
         destruct NF as [X|X]; apply N.eqb_eq in X; auto. }
-      rewrite (find_location_lpm fm8 mo _ Hfm). simpl.
+      rewrite (find_location_lpm fm8 mo _ Hfm). cbn [rbind].
       rewrite (ecs_client_lpm (nets (map_of mo)) e Hwf Hf).
       unfold ecs_scope.
-      destruct (lpm (nets (map_of mo)) (ecs_family e) (e_addr e) (ecs_plen e)) as [[loc len]|] eqn:L; simpl.
+      destruct (lpm (nets (map_of mo)) (ecs_family e) (e_addr e) (ecs_plen e)) as [[loc len]|] eqn:L;
+        cbn [loc_of_lpm l_map l_loc l_mask].
       + destruct (id_eqb (map_of mo) (0, 0)) eqn:M0.
         * exists None. repeat split; auto.
-        * destruct (id_eqb loc (0, 0)) eqn:L0; simpl.
+        * destruct (id_eqb loc (0, 0)) eqn:L0; cbn [negb].
           -- exists None. repeat split; auto.
           -- destruct (lpm_sound _ _ _ _ _ _ L) as [s [_ [He [_ Hl]]]].
              destruct (eligible_bounds _ _ _ _ He) as [B1 B2].
@@ -392,19 +400,20 @@ Section Scope.
              eexists. split.
              ++ f_equal. f_equal.
                 destruct (e_fam e =? 1) eqn:F1.
-                ** assert (ecs_family e = V4).
+                ** assert (HV : ecs_family e = V4).
                    { unfold ecs_family. apply N.eqb_eq in F1.
                      destruct Hwf as [[F _]|[[F [S V]]|[F _]]]; try (rewrite F in F1; discriminate).
-                     rewrite V. unfold ecs_plen. rewrite F. simpl.
+                     rewrite V. unfold ecs_plen. rewrite F. change (1 =? 1) with true. cbv iota.
                      assert (E : (96 <=? 96 + e_src e) = true) by (apply N.leb_le; lia). rewrite E. reflexivity. }
-                   specialize (B2 H). subst len.
-                   rewrite N.mod_small by lia. lia.
+                   specialize (B2 HV). subst len.
+                   replace (s_len s + 256 - 96) with ((s_len s - 96) + 1 * 256) by lia.
+                   rewrite N.mod_add by discriminate. apply N.mod_small. lia.
                 ** subst len. apply N.mod_small. lia.
-             ++ simpl. split; [split; [reflexivity|]|discriminate].
+             ++ cbn [l_loc]. split; [split; [reflexivity|]|discriminate].
                 intro X. rewrite X in L0. discriminate.
       + destruct (id_eqb (map_of mo) (0, 0)) eqn:M0.
         * exists None. repeat split; auto.
-        * exists None. repeat split; auto.
+        * change (id_eqb (0, 0) (0, 0)) with true. cbn [negb]. exists None. repeat split; auto.
   Qed.
 
   (* the resolver's location id: longest-prefix match of the full address in its map *)
@@ -421,11 +430,14 @@ Section Scope.
                     (search_addr premask (resolver_client (Some a))) (eff_plen (resolver_client (Some a)))
                 = lpm (nets (map_of mo)) (fam a) a 128).
     { unfold resolver_client, fam. destruct (is_v4 a) eqn:V.
-      - unfold eff_plen, cfam, search_addr, c_size, c_isv4, c_masked, c_addr; simpl. rewrite V. simpl.
-        destruct premask; [|reflexivity].
-        change (96 + 32) with 128. rewrite clean_mask_128. reflexivity.
-      - unfold eff_plen, cfam, search_addr, c_size, c_isv4, c_masked, c_addr; simpl. rewrite V. simpl.
-        destruct premask; [|reflexivity]. rewrite clean_mask_128. reflexivity. }
+      - unfold cfam, eff_plen, search_addr, c_size, c_isv4, c_masked, c_addr. cbn [c_ip c_bits c_ones].
+        rewrite V. change (32 <? 32) with false. change (32 =? 32) with true. cbn [andb]. cbv iota.
+        change (32 + 96) with 128. change (96 + 32) with 128. change (96 <=? 128) with true. cbv iota.
+        destruct premask; [rewrite clean_mask_128|]; reflexivity.
+      - unfold cfam, eff_plen, search_addr, c_size, c_isv4, c_masked, c_addr. cbn [c_ip c_bits c_ones].
+        rewrite V. change (128 <? 128) with false. change (128 =? 32) with false. cbn [andb]. cbv iota.
+        change (128 + 0) with 128.
+        destruct premask; [rewrite clean_mask_128|]; reflexivity. }
     rewrite E. destruct (lpm (nets (map_of mo)) (fam a) a 128) as [[loc l]|]; reflexivity.
   Qed.
 
@@ -475,7 +487,7 @@ Section Scope.
     destruct (serve_shape fm8 fmM gl ev q r Hb Hne H) as [e' [loc [F [_ E]]]].
     destruct (find_client_location_spec q mo8 moM rip H8 HM Hr) as [e2 [loc2 [F2 [_ E2]]]].
     { intros e0 He0. rewrite Hq in He0. inversion He0; subst. exact Hwf. }
-    rewrite F in F2. inversion F2; subst e2 loc2. rewrite Hq in E2.
+    rewrite F in F2. injection F2 as Ee El. rewrite <- Ee in E2. rewrite Hq in E2.
     assert (Q : exists o, q_edns q = Some o).
     { unfold query_ecs in Hq. destruct (q_edns q); [eauto|discriminate]. }
     destruct Q as [o Q]. unfold reply_ecs. rewrite E, Q, E2. simpl.
@@ -557,13 +569,17 @@ Proof.
     nia.
 Qed.
 
+Lemma Forall_firstn' : forall (P : N -> Prop) n l, Forall P l -> Forall P (firstn n l).
+Proof.
+  induction n as [|n IH]; intros l H; simpl; [constructor|].
+  destruct l as [|x l]; [constructor|]. inversion H; subst. constructor; auto.
+Qed.
+
 Lemma pad_to_wf : forall n l, wf_bytes l -> wf_bytes (pad_to n l) /\ length (pad_to n l) = n.
 Proof.
   intros n l H. unfold pad_to. split.
-  - apply Forall_forall. intros x Hx. apply firstn_In in Hx. apply in_app_or in Hx.
-    destruct Hx as [Hx|Hx].
-    + unfold wf_bytes in H. rewrite Forall_forall in H. exact (H x Hx).
-    + apply repeat_spec in Hx. subst. lia.
+  - apply Forall_firstn'. apply Forall_app. split; [exact H|].
+    apply Forall_forall. intros x Hx. apply repeat_spec in Hx. subst. lia.
   - rewrite firstn_length, app_length, repeat_length. lia.
 Qed.
 
